@@ -50,6 +50,24 @@ def run(chk, tier):
                     (g.get("err") or g.get("panic") or "")[:200]),
                     {"module": "MiniJS", "variant": "yform", "program": p, "source": mjgen.print_js(p, variant="yform"), "want": want2[p["id"]], "got": g})
         chk.add("yield_form_runs", len(progs))
+    # the same bodies as async functions: yield -> await, the driver's next(v) / throw(e) -> settlement of the awaited operand
+    with phase(chk, "async-twins"):
+        twins = []
+        for p in progs:
+            q = mjgen.async_twin(p, len(progs) + len(twins))
+            if q:
+                twins.append(q)
+        want3, st3 = oracle.tlc_eval(twins, wd, "as")
+        got3 = oracle.goja_run(binp, twins, wd, "asg", variant="async")
+        for q in twins:
+            w, g = want3[q["id"]], got3[q["id"]]
+            exp = mjgen.async_expected(w["log"])
+            if g.get("panic") or g.get("err") or g["log"] != exp:
+                chk.violation("MiniJS L2 (async function = generator driven by promise reactions): program %d: specified log=%s; goja log=%s %s" % (
+                    q["id"], exp, g["log"], (g.get("err") or g.get("panic") or "")[:200]),
+                    {"module": "MiniJS", "variant": "async", "program": q, "source": mjgen.print_js(q, variant="async"), "want": dict(w, log=exp), "got": g})
+        chk.add("async_function_runs", len(twins))
+        states += st3
     chk.setcov("programs", len(progs))
     chk.setcov("disagreements_checked", bad)
     chk.setcov("states", states)
@@ -57,7 +75,9 @@ def run(chk, tier):
     chk.setcov("traces_validated_against_impl", len(progs))
     chk.setcov("rule", "generator bodies (systematic nestings of try/catch/finally positions, loops, for-of, labels, switch with a yield or an "
                "abrupt completion innermost; seeded random bodies with yield, yield* over instrumented iterators, destructuring, spread) x driver "
-               "histories over next(v)/throw(e)/return(v) (all of length <= 3 for the systematic family, random length <= 6 otherwise)")
+               "histories over next(v)/throw(e)/return(v) (all of length <= 3 for the systematic family, random length <= 6 otherwise); "
+               "every body without yield* also as an async function (yield -> await; next(v) / throw(e) -> the awaited promise, value or thenable "
+               "fulfils with v / rejects with e), compared with the generator state machine up to completion")
 
 
 def replay(path):
